@@ -497,6 +497,47 @@ def check_inf_guard(ctx):
     scalar_ifs = [s for s in fi.body if isinstance(s, ast.If) and 'isscalar' in U(s.test)]
     inside = {id(n) for s in scalar_ifs for b in s.body for n in ast.walk(b)}
     guards = [g for g in guards if id(g) not in inside]
+    # the selection must fire on infinite entries ONLY: log-space tables are defined up to an additive constant, so no finite value
+    # marks a structural zero (a threshold such as `<= log(1e-100)` makes the quotient depend on the constant)
+    from ..normalise import Defs, expand
+    defs = Defs(fi.body)
+    NEG_INF = ('-np.inf', '-numpy.inf', '-math.inf', "float('-inf')", "-float('inf')", 'np.NINF', '-inf', '-np.Inf', '-np.infty')
+
+    def mask_kind(m):
+        m = expand(m, defs, keep=(other,))
+        if isinstance(m, ast.UnaryOp) and isinstance(m.op, ast.Invert):
+            inner = m.operand
+            if isinstance(inner, ast.Call) and U(inner.func).split('.')[-1] == 'isfinite':
+                return 'exact', m
+            return 'unknown', m
+        if isinstance(m, ast.Call) and U(m.func).split('.')[-1] in ('isneginf', 'isinf'):
+            return 'exact', m
+        if isinstance(m, ast.Call) and U(m.func).split('.')[-1] == 'isfinite':
+            return 'exact', m          # the branches are then the other way round; the existing rule only asks for the selection
+        if isinstance(m, ast.Compare) and len(m.ops) == 1:
+            l, r, op = U(m.left).replace(' ', ''), U(m.comparators[0]).replace(' ', ''), m.ops[0]
+            if l in NEG_INF or r in NEG_INF:
+                val_left = r in NEG_INF
+                if isinstance(op, (ast.Eq, ast.NotEq)):
+                    return 'exact', m
+                if (isinstance(op, ast.LtE) and val_left) or (isinstance(op, ast.GtE) and not val_left):
+                    return 'exact', m
+                if (isinstance(op, ast.Gt) and val_left) or (isinstance(op, ast.Lt) and not val_left):
+                    return 'exact', m      # `x > -inf`: the finite entries
+                return 'never', m
+            if isinstance(op, (ast.Lt, ast.LtE, ast.Gt, ast.GtE)):
+                return 'threshold', m
+        return 'unknown', m
+    for g in guards:
+        if isinstance(g, ast.Call) and U(g.func).split('.')[-1] == 'where' and len(g.args) == 3:
+            kind, m = mask_kind(g.args[0])
+            if kind == 'unknown':
+                raise AnalysisError('Factor.__sub__: the selection `%s` is not a recognised test for infinite entries' % U(m)[:80])
+            ctx.ob('inf-guard', fi, g, kind == 'exact',
+                   'the selection of structural zeros of the subtrahend must be a test for infinite entries only; `%s` %s'
+                   % (U(m), {'exact': 'is one', 'threshold': 'also fires on finite entries: tables in log space are defined up to an additive '
+                                                             'constant, so the difference changes when a constant is added to a potential',
+                             'never': 'never fires'}[kind]), construct='selection mask of __sub__')
     ctx.ob('inf-guard', fi, guards[0] if guards else fi.node, bool(guards),
            'factor subtraction must select on infinities of the subtrahend (np.where(.. == -inf ..), isinf mask or '
            'nan_to_num): (-inf) - (-inf) is NaN for every structural zero',
